@@ -261,6 +261,125 @@ def variance_swap_units(ctx: Ctx) -> None:
                               {"expected": want.tolist(), "observed": got.tolist()})
 
 
+def registry_replay(ctx: Ctx) -> None:
+    """Registry.tla -> code: histories of add_clause / register_underlier / attribute assignment of primaries / list / delist on a
+    real derivative; after EVERY operation the outcome (ok or the exception class) and the projected state (named_clauses,
+    named_underliers, is_listed, cost) are compared with the machine's, and in the final state every read-only operation
+    (payoff for two base payoffs, ul(i) incl. negative and out-of-range indices, spot, dtype) returns what the machine says."""
+    from pfhedge.instruments import BrownianStock, EuropeanOption, HestonStock
+    ex = ctx.tlc("MC_Registry", "MC_Registry_q_d2.cfg" if ctx.tier == "quick" else "MC_Registry_t_d3.cfg", workers=4, coverage=(ctx.tier == "quick"))
+    graph = ctx.tlc("MC_Registry", "MC_Registry_graph.cfg", workers=4)
+    require_actions(graph, ["AddClause", "RegisterUnderlier", "SetAttr", "List", "Delist"])
+    sim = ctx.tlc("MC_Registry", "MC_Registry_sim.cfg", workers=4, simulate=f"num={1500 if ctx.tier == 'quick' else 12000}", depth=8, seed=ctx.seed + 2, coverage=False)
+    ctx.sections["registry_graph"] = {"distinct_states": graph.distinct, "transitions": graph.transitions}
+    FN = {"f1": (lambda d, x: 2 * x + 1), "f2": (lambda d, x: 3 * x)}
+    PRICER = {1: (lambda d: torch.full((2, 3), 1.0)), 2: (lambda d: torch.full((2, 3), 2.0))}
+
+    class Probe(EuropeanOption):
+        base = 3.0
+
+        def payoff_fn(self):
+            return torch.full((2,), float(self.base), dtype=torch.float64)
+
+    seen = set()
+    recs = []
+    for r in list(ex.records) + list(sim.records):
+        k = json.dumps(r["hist"], sort_keys=True)
+        if k not in seen:
+            seen.add(k)
+            recs.append(r)
+    if len(recs) < 1000:
+        raise MachineryError(f"Registry: only {len(recs)} histories")
+
+    def project(d, prims):
+        who = {id(v): k for k, v in prims.items()}
+        fid = {id(v): k for k, v in FN.items()}
+        return {"clauses": [[n, fid.get(id(f), "?")] for n, f in d.named_clauses()], "unders": [[n, who.get(id(u), "?")] for n, u in d.named_underliers()],
+                "listed": bool(d.is_listed), "cost": 0 if d.cost == 0.0 else (1 if d.cost == 1e-3 else -1), "pricer": 0 if d.pricer is None else {id(v): k for k, v in PRICER.items()}.get(id(d.pricer), -1)}
+
+    def replay_all(ctx, recs):
+      for r in recs:
+          prims = {"p1": BrownianStock(dt=0.25, dtype=torch.float64), "p2": HestonStock(dt=0.25, dtype=torch.float32)}
+          d = Probe(prims["p1"], strike=1.0, maturity=0.5)
+          story = []
+          ok_so_far = True
+          for ev in r["hist"]:
+              name = 7 if ev["name"] == "<int>" else ev["name"]
+              story.append([ev["op"], ev["name"], ev["arg"]])
+              try:
+                  if ev["op"] == "AddClause":
+                      d.add_clause(name, FN[ev["arg"]])
+                  elif ev["op"] == "RegisterUnderlier":
+                      d.register_underlier(name, prims[ev["arg"]])
+                  elif ev["op"] == "SetAttr":
+                      setattr(d, name, prims[ev["arg"]])
+                  elif ev["op"] == "List":
+                      d.list(PRICER[int(ev["arg"])], cost=ev["post"]["cost"] * 1e-3)
+                  else:
+                      d.delist()
+                  res = "ok"
+              except (TypeError, KeyError, ValueError, AttributeError, IndexError) as e:
+                  res = type(e).__name__
+              ctx.count(n=1)
+              if res != ev["res"]:
+                  ctx.violation(f"registry:{ev['op']}:outcome", f"{ev['op']}({ev['name']!r}) after {story[:-1]}: {res}, the registry machine says {ev['res']}", {"history": story, "observed": res, "expected": ev["res"]})
+                  ok_so_far = False
+                  break
+              got = project(d, prims)
+              if got != {k: ev["post"][k] for k in got}:
+                  ctx.violation(f"registry:{ev['op']}:state", f"state after {ev['op']}({ev['name']!r}) differs from the registry machine's", {"history": story, "observed": got, "expected": ev["post"]})
+                  ok_so_far = False
+                  break
+          if not ok_so_far:
+              continue
+          reads = r["reads"]
+          prim_of = lambda x: x                                                                      # noqa: E731
+          for base, key in ((3.0, "payoff3"), (5.0, "payoff5")):
+              d.base = base
+              po = d.payoff()
+              ctx.count(n=1)
+              if po.shape != (2,) or not bool((po == float(reads[key])).all()):
+                  ctx.violation("registry:payoff", f"payoff() with clauses {[c[0] for c in project(d, prims)['clauses']]} is not the base payoff passed through the clauses in registration order",
+                                {"history": story, "base": base, "expected": reads[key], "observed": po.tolist()})
+          for idx, key in ((0, "ul0"), (1, "ul1"), (-1, "ulm1"), (5, "ul5")):
+              try:
+                  u = d.ul(idx)
+                  got = {id(v): k for k, v in prims.items()}.get(id(u), "?")
+              except IndexError:
+                  got = "IndexError"
+              ctx.count(n=1)
+              if got != reads[key]:
+                  ctx.violation("registry:ul", f"ul({idx}) is {got}, the registry machine says {reads[key]}", {"history": story})
+          try:
+              sp = d.spot
+              got_spot = int(sp[0, 0].item())
+          except ValueError:
+              got_spot = -1
+          ctx.count(n=1)
+          if got_spot != reads["spot"]:
+              ctx.violation("registry:spot", f"spot of a derivative that is {'listed' if reads['listed'] else 'not listed'}: observed {got_spot} (-1 = ValueError), expected {reads['spot']}", {"history": story})
+          try:
+              dt_ok = d.dtype == d.ul(0).dtype
+          except AttributeError:
+              dt_ok = False
+          ctx.count(n=1)
+          if dt_ok != reads["dtype_ok"]:
+              ctx.violation("registry:dtype", f"dtype of a derivative with {len(project(d, prims)['unders'])} underlier(s): {'defined' if dt_ok else 'AttributeError'}, the machine says {'defined' if reads['dtype_ok'] else 'undefined'}", {"history": story})
+    replay_all(ctx, recs)
+    ctx.sections["registry_histories_replayed"] = len(recs)
+    # binding demonstration: the same replay rejects a history whose expected post-state has the clause order reversed, and one
+    # whose expected outcome of a rejected registration is "ok"
+    probe = Ctx.__new__(Ctx)
+    probe.__dict__.update({"_per_key": {}, "violations": [], "findings": [], "known_hits": {}, "evaluations": 0, "distinct": set()})
+    r0 = json.loads(json.dumps(next(r for r in recs if len(r["hist"][-1]["post"]["clauses"]) >= 2)))
+    r0["hist"][-1]["post"]["clauses"].reverse()
+    r1 = json.loads(json.dumps(next(r for r in recs if r["hist"][-1]["res"] == "KeyError")))
+    r1["hist"][-1]["res"] = "ok"
+    replay_all(probe, [r0, r1])
+    keys = {v["key"] if isinstance(v, dict) else getattr(v, "key", "") for v in probe.violations}
+    ctx.selftest("registry histories with a reversed clause order / a rejected registration expected to succeed are rejected", len(probe.violations) >= 2)
+
+
 def check(ctx: Ctx) -> None:
     with ThreadPoolExecutor(max_workers=6) as ex:
         results = list(ex.map(lambda c: ctx.tlc("MC_Payoff", f"MC_Payoff_{c}.cfg", workers=4), CFGS[ctx.tier]))
@@ -273,6 +392,7 @@ def check(ctx: Ctx) -> None:
     replay(ctx, recs)
     ties_at_non_dyadic_strike(ctx)
     variance_swap_units(ctx)
+    registry_replay(ctx)
     # forward-start index over Grid.tla's (dt, k, fraction) menu: start = (k + f) dt  ->  index floor(start/dt) = k
     from pfhedge.instruments import BrownianStock, EuropeanForwardStartOption
     grid = ctx.tlc("MC_Grid", "MC_Grid_q.cfg" if ctx.tier == "quick" else "MC_Grid_t.cfg", workers=4)
